@@ -15,6 +15,7 @@ c=det.get("caught_by_after") or det.get("caught_by") or list((m.get("checks") or
 print(" ".join(sorted({x.split()[0] for x in c})))
 PY
 )
+  if python3 -c "import json,sys; sys.exit(0 if json.load(open('$d/meta.json')).get('obsolete') else 1)"; then echo "$id: OBSOLETE (the code it changes no longer decides the property: see meta.json)"; continue; fi
   if ! git -C $W apply $P 2>/dev/null; then echo "$id: PATCH DOES NOT APPLY"; continue; fi
   for p in $props; do
     O=$(/verif/tools/mutrun.sh $W $p quick 2>&1); rc=$?
